@@ -79,7 +79,13 @@ func C11(c *Ctx) {
 	for _, p := range base {
 		progs = append(progs, p)
 		form := 1 + k%(genr.NForms-1)
-		if c.Thorough() || k%2 == 0 {
+		ownAPIImport := false
+		for _, im := range p.Imports {
+			if strings.Contains(im, "github.com/goghcrow/go-co") {
+				ownAPIImport = true // the case is about its own import of the API / of seq: no other import style
+			}
+		}
+		if (c.Thorough() || k%2 == 0) && !ownAPIImport {
 			if w := genr.WithForm(p, form); w != nil {
 				w.Style = render.Style((k / (genr.NForms - 1)) % int(render.NStyles))
 				progs = append(progs, w)
